@@ -95,7 +95,7 @@ def main(tier, args):
                    "the rest of the 4096-byte receive buffer keeps the paint and is ASan-poisoned; also: zero-length datagram, recvfrom fails with EAGAIN / EINTR / ECONNREFUSED; datagrams of 4097 / 5000 / 6000 bytes = MAX + a tail, with unchanged / inflated answer count, "
                    "a CNAME pointer behind byte 4096, a last record whose rdata reaches the real end - judged as the prefix that the offered buffer holds), twice on equal object states: dead stack painted 0x00 / 0xA5 (48 KiB) immediately before the call (second paint 0x01 for the id+string sweep once id and flags are present); g++ -O1 plain build and ASan+UBSan build%s. "
                    "Datagrams: 6 base replies (A; CNAME+A with compression; TXT+A; 3A+NS; BIG = 633 bytes, records behind offset 512, CNAME with a 63-byte label and a pointer to offset 533; MAX = 4096 bytes, 62 records, pointer to offset 3000) "
-                   "x {every truncation offset; qd/an/ns/ar count in {0,1,real,real+1,255,65535}; every compression pointer (MAX: two of them) -> every offset 0..len+1 (BIG/MAX also 8191, 16383), every loop of two and every loop of three; "
+                   "x {every truncation offset; qd/an/ns/ar count in {0,1,real,real+1,255,65535}; every compression pointer (MAX: two of them) -> every offset 0..len+1 (BIG/MAX also 8191, 16383), every loop of two and every loop of three; every record's RDLENGTH set to 0..true+2 and 65535 (A records also 5, 16; rdata longer than 64: 0..6, true-2..true+2) with the datagram unchanged and cut / zero-padded to end at the declared rdata end -1/0/+1; "
                    "every byte (MAX: the 120 bytes of header, question, start of the TXT record, planted name, CNAME record, first and last A record) replaced by each of {00,01,3f,40,c0,ff}%s}; CNAME reached through a chain of k pointers ending in a label / closing a cycle, "
                    "k in {1,2,3,4,8,14..19,32,64,200,1000}; matching id + every byte string of %s. "
                    "Oracle: worker survives (no stack exhaustion = bounded recursion, no ASan/UBSan report, progress within 20 s), identical callback/status/addresses/ttls/names under both paints, datagram id matches, "
